@@ -255,10 +255,14 @@ func (c *consumer) waitAndAddPoller() {
 	}
 	c.pollWaitMu.Lock()
 	defer c.pollWaitMu.Unlock()
-	if c.pollWaitState&math.MaxUint32 == 0 {
-		for c.pollWaitState>>32 != 0 {
-			c.pollWaitC.Wait()
-		}
+	// We wait only while no poller holds and a rebalance is pending. The
+	// poller count must be re-checked on every wakeup: if a concurrent poll
+	// entered while we slept and a new rebalance then registered, that
+	// rebalance waits for AllowRebalance, which the user cannot call while
+	// our poll is still in flight; waiting on the rebalance here would
+	// deadlock all three.
+	for c.pollWaitState&math.MaxUint32 == 0 && c.pollWaitState>>32 != 0 {
+		c.pollWaitC.Wait()
 	}
 	// Rebalance always takes priority, but if there are no active
 	// rebalances, our poll blocks rebalances.
